@@ -27,6 +27,7 @@ exercised; random byte flips of users/cdb belong to C20."""
 import os, re, json, shutil, subprocess
 from lib import vlib, sandbox, inproc
 from hypothesis import strategies as st
+from props import c11_tools
 
 LEVEL = "exploration"
 RULE = ("Hypothesis draws (users/assign lines over a pool of local parts with shared prefixes, passwd accounts with home states, "
@@ -170,7 +171,8 @@ class Runner:
         self.root = os.path.join(vlib.scratch_root(), "c11-%s" % wid)
         self.h = sandbox.Home(tree, os.path.join(self.root, "home"))
         h = self.h
-        h.link_bins(overrides={"qmail-local": sandbox.STANDIN})
+        self.shim, self.standin = c11_tools.private_tools()
+        h.link_bins(overrides={"qmail-local": self.standin})
         self.brk = tree.conf("conf-break")[:1].encode("latin-1")
         self.rec = os.path.join(self.root, "rec")
         os.makedirs(self.rec, exist_ok=True)
@@ -235,13 +237,13 @@ class Runner:
 
     def newu(self, data):
         open(self.assign, "wb").write(data)
-        rc, out, err = sandbox.run_proc([self.tree.path("qmail-newu")], self.h.env(role="newu", trace=False))
+        rc, out, err = sandbox.run_proc([self.tree.path("qmail-newu")], self.h.env(role="newu", trace=False, LD_PRELOAD=self.shim))
         return rc, err
 
     # -- one qmail-lspawn session
     def start(self, **extra):
         self.stop()
-        env = self.h.env(role="ls", uid=0, gid=0, **dict(sandbox.standin_env(self.rec), **extra))
+        env = self.h.env(role="ls", uid=0, gid=0, **dict(sandbox.standin_env(self.rec), LD_PRELOAD=self.shim, **extra))
         open(self.h.trace, "wb").close()
         self.sess = sandbox.Session([self.tree.path("qmail-lspawn"), AE.decode()], env)
         first = self.sess.read_until(lambda b: 1 if b else None)
@@ -692,6 +694,7 @@ def replay_cdb(ctx, tree, case):
 
 def run(ctx):
     sandbox.ensure_shim()
+    c11_tools.private_tools()
     tree = vlib.Tree().make("qmail-lspawn", "qmail-getpw", "qmail-newu")
     only = getattr(ctx, "only", None)
     if not only or "cdb" in only:
